@@ -3,6 +3,7 @@ import Driver.Hash
 import Driver.Box
 import Driver.Stream
 import Driver.Curve
+import Driver.Pwhash
 /-
 Line-protocol driver.  One request per line:  `<id> <op> <arg>…` (byte strings
 in hex, `-` = empty).  One answer per line: `<id>\t<model answer>\t<spec answer>`
@@ -21,6 +22,9 @@ def handle (op : String) (args : List String) : Ans :=
   | some a => a
   | none =>
   match Curve.handle op args with
+  | some a => a
+  | none =>
+  match Pwhash.handle op args with
   | some a => a
   | none => ("bad-op", "bad-op")
 
